@@ -2,26 +2,162 @@
 from common import *
 import t1, gen_designs as G, dump_ir as D
 
-OBLIGATIONS = ['C10.driverOf_nearest', 'C10.driverOf_none', 'C10.lookup_addTo', 'C10.lookup_group', 'C10.gated_hold_state',
+OBLIGATIONS = ['C10.driverOf_natural', 'C10.driverOf_obj_only', 'C10.driverOf_same_objects', 'C10.getObjectClockDriver_eq',
+               'C10.getObjectClockDriver_self', 'C10.getObjectClockDriver_inherit', 'C10.lookupDom_addDom', 'C10.domains_lookup',
+               'C10.domainsFrom_none', 'C10.domains_attr_irrelevant', 'C10.domains_enabled_nodup', 'C10.mem_enabled_domains',
+               'C10.hier_gated_hold_state', 'C10.hier_gated_hold_iter', 'C10.hier_gated_hold_wire', 'C10.hier_enabled_steps', 'C10.hier_step_like_ungated',
+               'C10.hier_other_domains_unaffected',
+               'C10.driverOf_nearest', 'C10.driverOf_none', 'C10.lookup_addTo', 'C10.lookup_group', 'C10.gated_hold_state',
                'C10.mem_enabledClockables', 'C10.disabled_not_clocked', 'C10.gated_hold_wire', 'C10.clkCycle_congr_enabled',
                'C10.enabledClockables_ungate', 'C10.gated_transparent', 'C10.domains_independent_state',
                'C10.domains_independent_wire', 'C05.leaf_sees_pre_edge', 'C05.unclocked_keeps_state', 'C05.clockDrivers_eq']
 
 
+_ABSENT = object()
+
+
+def asked_driver(o):
+    """the driver object the DESIGN put on this block: the harness records it (`_verif_driver`) wherever it assigns a driver, so
+    that nothing the code under test rewrites (clockDriver attributes, drivers' own fields) can move the oracle; blocks the harness
+    never touched (the HWSystem with its default driver) answer with their attribute"""
+    d = o.__dict__.get('_verif_driver', _ABSENT)
+    return o.clockDriver if d is _ABSENT else d
+
+
+def set_driver(o, drv):
+    o.clockDriver = drv
+    o._verif_driver = drv
+    return drv
+
+
 def spec_driver(obj):
-    """the property's rule: nearest ancestor-or-self with a driver"""
+    """the property's rule: nearest ancestor-or-self with a driver — the driver OBJECT, whatever its name, base or clock wire"""
     o = obj
     while o is not None:
-        if o.clockDriver is not None:
-            return o.clockDriver
+        d = asked_driver(o)
+        if d is not None:
+            return d
         o = o.parent
     return None
 
 
-def hierarchy_stream(res, rng, n):
-    """random hierarchies: real getObjectClockDriver / Simulator grouping vs model"""
-    import py4hw
+def _nm(x):
+    return ''.join(ch if ch.isalnum() else '-' for ch in str(x)) or '-'
+
+
+class DrvIds:
+    """numbers the ClockDriver objects, clock wires and enable wires of one system for the Lean records
+    obj:name:base:wire:enable (0 = None) — all read from what the design ASKED for"""
+
+    def __init__(self, sysobj):
+        self.did, self.wid, self.asked = {}, {}, {}
+        self.drivers = []
+        self.enw = {id(w): i + 1 for i, w in enumerate(D.all_wires(sysobj))}
+
+    def drv(self, d):
+        if d is None:
+            return 0
+        if id(d) not in self.did:
+            self.did[id(d)] = len(self.did) + 1
+            self.drivers.append(d)
+            # the attributes as they are at first sight = right after the design declared the driver
+            en = d.__dict__.get('_verif_enable', _ABSENT)
+            en = d.enable if en is _ABSENT else en
+            self.asked[id(d)] = (d.name, d.base, d.wire, en)
+        return self.did[id(d)]
+
+    def wire(self, w):
+        if w is None:
+            return 0
+        return self.wid.setdefault(id(w), len(self.wid) + 1)
+
+    def enable(self, w):
+        if w is None:
+            return 0
+        return self.enw.setdefault(id(w), len(self.enw) + 1)
+
+    def tok(self, d):
+        if d is None:
+            return '_'
+        o = self.drv(d)
+        nm, base, wire, en = self.asked[id(d)]
+        return f'{o}:{_nm(nm)}:{self.drv(base)}:{self.wire(wire)}:{self.enable(en)}'
+
+    def chain(self, obj):
+        out, o = [], obj
+        while o is not None:
+            out.append(self.tok(asked_driver(o)))
+            o = o.parent
+        return out
+
+
+def domains_request(sysobj, sim, ids=None):
+    """the clockable leaves of the system with their chains of ASKED driver records -> request for the Lean `domains`, and the
+    simulator's real clockDrivers dict in the same notation"""
+    ids = ids or DrvIds(sysobj)
+    leaves = sysobj.allLeaves()
+    lid = {id(l): i for i, l in enumerate(leaves)}
+    if len(lid) != len(leaves):
+        return 'domains | allLeaves() lists a leaf twice (hypothesis Nodup of the theorems)', 'holds'
+    req = 'domains | ' + ';'.join(f"{lid[id(l)]}={','.join(ids.chain(l))}" for l in leaves if l.isClockable())
+    try:
+        parts = []
+        for drv, ds in sim.clockDrivers.items():
+            en = ids.asked[id(drv)][3] if id(drv) in ids.asked else drv.enable
+            parts.append(f"{ids.did[id(drv)]}/{ids.enable(en) or '_'}={','.join(str(lid[id(o)]) for o in ds.clockables)}")
+        exp = ';'.join(parts)
+    except Exception as e_:
+        exp = f'E:{type(e_).__name__}'
+    return req, exp
+
+
+def check_lookup(res, sysobj, objs, ids, reqs, exp, describe):
+    """real getObjectClockDriver on every object of `objs` vs the nearest-ancestor-or-self rule (oracle) and vs the Lean
+    transcription on the object tree / on the chain of full driver records"""
     from py4hw.base import getObjectClockDriver
+    ok_all = True
+    allobjs = []
+
+    def walk(o):
+        allobjs.append(o)
+        for c in o.children.values():
+            walk(c)
+    walk(sysobj)
+    oid = {id(o): i for i, o in enumerate(allobjs)}
+    gots = []
+    for lf in objs:
+        chain = ids.chain(lf)
+        want = spec_driver(lf)
+        want = ids.drv(want) if want is not None else 'E'
+        try:
+            g = getObjectClockDriver(lf)
+            got = ids.did.get(id(g), f'unknown-driver-{getattr(g, "name", g)}')
+        except Exception:
+            got = 'E'
+            ok_all = False
+        if got != want:
+            res.fail('getObjectClockDriver does not return the nearest ancestor driver',
+                     dict(describe(), block=lf.getFullPath(), chain_self_to_root_obj_name_base_wire_enable=chain, got=got, want=want))
+        gots.append(str(got))
+        reqs.append('chainx | ' + ','.join(chain))
+        exp.append(str(got))
+        short = tuple(0 if t == '_' else int(t.split(':')[0]) for t in chain)
+        reqs.append('chain | ' + ','.join(map(str, short)))
+        exp.append(str(got))
+        shared = sum(1 for i, t in enumerate(chain) for u in chain[i + 1:] if t != '_' and u != '_' and t.split(':')[3] != '0' and t.split(':')[3] == u.split(':')[3])
+        res.count(('chain', tuple(chain)), hist={'chain_len': len(chain), 'chain_result': 'E' if got == 'E' else 'drv',
+                                                 'chain_has_shared_clock_wire': int(shared > 0)})
+    reqs.append('tree | ' + ','.join(str(oid[id(o.parent)]) if o.parent is not None else '-1' for o in allobjs) + ' | '
+                + ','.join(ids.tok(asked_driver(o)) for o in allobjs) + ' | ' + ','.join(str(oid[id(o)]) for o in objs))
+    exp.append(','.join(gots))
+    return ok_all
+
+
+def hierarchy_stream(res, rng, n):
+    """random hierarchies: real getObjectClockDriver / Simulator grouping vs model.  Drivers sit on the root, on containers and
+    directly on leaves; each is declared without clock wire, on a wire of its own, or on THE SAME Wire object as another driver
+    (an ancestor's, a sibling's, the system's); names collide; bases chain; some are gated"""
+    import py4hw
     import py4hw.logic.storage as S
     reqs, exp = [], []
     for t in range(n):
@@ -29,14 +165,34 @@ def hierarchy_stream(res, rng, n):
         sysobj = py4hw.HWSystem()
         top_has = not r.chance(1, 6)
         if not top_has:
-            sysobj.clockDriver = None
+            set_driver(sysobj, None)
         conts = [sysobj]
         drivers = [sysobj.clockDriver] if top_has else []
+        ens = [sysobj.wire(f'en{i}', r.choice([1, 1, 3])) for i in range(2)]
+        decl = []
+
+        def new_driver(tag, parent_obj):
+            mode = r.choice(['none', 'own', 'anc', 'anc', 'any'])
+            near = spec_driver(parent_obj)
+            wire = None
+            if mode == 'own':
+                wire = sysobj.wire(f'ck_{tag}')
+            elif mode == 'anc' and near is not None:
+                wire = near.wire
+            elif mode == 'any' and drivers:
+                wire = r.choice(drivers).wire
+            base = r.choice([None, near, r.choice(drivers) if drivers else None])
+            en = r.choice([None, ens[0], ens[1]])
+            d = py4hw.ClockDriver(r.choice([f'd{tag}', 'gclk', 'clk']), base=base, enable=en, wire=wire)
+            d._verif_enable = en
+            drivers.append(d)
+            decl.append((tag, mode, d.name, None if base is None else base.name, None if en is None else en.name))
+            return d
         for i in range(r.randint(0, 7)):
-            c = py4hw.Logic(r.choice(conts), f'c{i}')
-            if r.chance(1, 3):
-                c.clockDriver = py4hw.ClockDriver(f'd{i}', base=None)
-                drivers.append(c.clockDriver)
+            par = r.choice(conts)
+            c = py4hw.Logic(par, f'c{i}')
+            if r.chance(2, 5):
+                set_driver(c, new_driver(f'c{i}', par))
             conts.append(c)
         leaves = []
         for i in range(r.randint(1, 8)):
@@ -45,45 +201,67 @@ def hierarchy_stream(res, rng, n):
             q = sysobj.wire(f'q{i}', 4)
             leaves.append(S.Reg(p, f'r{i}', d, q))
             if r.chance(1, 4):
-                leaves[-1].clockDriver = py4hw.ClockDriver(f'ld{i}', base=None)
-                drivers.append(leaves[-1].clockDriver)
-        did = {id(d): j + 1 for j, d in enumerate(drivers)}
-        ok_all = True
-        for lf in leaves:
-            chain, o = [], lf
-            while o is not None:
-                chain.append(did[id(o.clockDriver)] if o.clockDriver is not None else 0)
-                o = o.parent
-            try:
-                got = did[id(getObjectClockDriver(lf))]
-            except Exception:
-                got = 'E'
-                ok_all = False
-            want = spec_driver(lf)
-            want = did[id(want)] if want is not None else 'E'
-            if got != want:
-                res.fail('getObjectClockDriver does not return the nearest ancestor driver',
-                         dict(chain=chain, got=got, want=want))
-            reqs.append('chain | ' + ','.join(map(str, chain)))
-            exp.append(str(got))
-            res.count(('chain', tuple(chain)), hist={'chain_len': len(chain), 'chain_result': 'E' if got == 'E' else 'drv'})
+                set_driver(leaves[-1], new_driver(f'r{i}', p))
+        ids = DrvIds(sysobj)
+        for d in drivers:
+            ids.drv(d)
+        ok_all = check_lookup(res, sysobj, leaves + conts[1:], ids, reqs, exp,
+                              lambda: dict(tree={o.getFullPath(): (o.parent.getFullPath() if o.parent else None) for o in conts[1:] + leaves},
+                                           drivers_declared_tag_wiremode_name_base_enable=decl, root_has_driver=top_has))
         if ok_all:
             sim = sysobj.getSimulator()
             lid = {id(l): i for i, l in enumerate(sysobj.allLeaves())}
-            pairs = [(did[id(spec_driver(l))], lid[id(l)]) for l in sysobj.allLeaves() if l.isClockable()]
+            pairs = [(ids.drv(spec_driver(l)), lid[id(l)]) for l in sysobj.allLeaves() if l.isClockable()]
             reqs.append('group | ' + ','.join(f'{d}:{k}' for d, k in pairs))
             try:
-                exp.append(';'.join(f"{did[id(drv)]}={','.join(str(lid[id(o)]) for o in ds.clockables)}"
+                exp.append(';'.join(f"{ids.did[id(drv)]}={','.join(str(lid[id(o)]) for o in ds.clockables)}"
                                     for drv, ds in sim.clockDrivers.items()))
             except Exception as e_:
                 # the simulator no longer groups its clockable leaves by ClockDriver object: nothing to compare with the model here
                 # (reported as a disagreement); the gating oracle on the random designs decides the property on the implementation
                 exp.append(f'E:{type(e_).__name__}')
+            rq, ex = domains_request(sysobj, sim, ids)
+            reqs.append(rq)
+            exp.append(ex)
             res.count(('group', tuple(pairs)))
     outs = run_driver('Drv/C10.lean', reqs)
     for rq, a, e in zip(reqs, outs, exp):
         if a.strip() != e:
             res.disagree('hierarchy', dict(request=rq, lean=a, python=e))
+
+
+def exhaustive_paths(res, max_depth=4):
+    """EVERY path root → … → block of depth ≤ max_depth, every object on it carrying: no driver / a driver without clock wire / a
+    driver on the clock wire shared by all 'S' drivers of the path (the system's own 'clk' wire when the root has its default
+    driver) / a driver on a wire of its own; the root additionally: its default driver, or none at all.  Gating alternates
+    along the path (it never takes part in the lookup)."""
+    import py4hw, itertools
+    reqs, exp = [], []
+    for depth in range(1, max_depth + 1):
+        for root_opt in ('default', 'none'):
+            for combo in itertools.product('_NSO', repeat=depth):
+                sysobj = py4hw.HWSystem()
+                if root_opt == 'none':
+                    set_driver(sysobj, None)
+                en = sysobj.wire('en')
+                shared = sysobj.clockDriver.wire if root_opt == 'default' else sysobj.wire('shared_ck')
+                o, objs = sysobj, []
+                for i, c in enumerate(combo):
+                    o = py4hw.Logic(o, f'l{i}')
+                    objs.append(o)
+                    if c != '_':
+                        w = None if c == 'N' else (shared if c == 'S' else sysobj.wire(f'ck{i}'))
+                        d = py4hw.ClockDriver('clk', base=spec_driver(o.parent), enable=(en if i % 2 == 0 else None), wire=w)
+                        d._verif_enable = d.enable
+                        set_driver(o, d)
+                ids = DrvIds(sysobj)
+                check_lookup(res, sysobj, objs, ids, reqs, exp, lambda: dict(exhaustive_path=''.join(combo), root=root_opt,
+                             legend='_ no driver, N driver without wire, S driver on the shared clock wire, O driver on its own wire'))
+    outs = run_driver('Drv/C10.lean', reqs)
+    for rq, a, e in zip(reqs, outs, exp):
+        if a.strip() != e:
+            res.disagree('hierarchy-exhaustive', dict(request=rq, lean=a, python=e))
+    res.hist('exhaustive_paths', 'all paths up to depth %d' % max_depth, len(reqs))
 
 
 def gating_oracle(res, summary):
@@ -135,7 +313,7 @@ def late_driver_stream(res, rng, n):
     for i in range(n):
         r = rng.fork(i)
         plan = G.random_plan(r, r.randint(4, 16), seq_ratio=(2, 3), wmax=r.choice([1, 2, 4]), n_domains=r.randint(1, 3),
-                             kinds=['And2', 'Not', 'Buf', 'Mux2', 'Constant', 'Reg', 'Sequence', 'AddCarryIn'])
+                             kinds=['And2', 'Not', 'Buf', 'Mux2', 'Constant', 'Reg', 'Sequence', 'AddCarryIn'], driver_wires=True)
         try:
             with contextlib.redirect_stdout(io.StringIO()):
                 sysobj, ins, W, leaves = G.build(plan)
@@ -178,11 +356,15 @@ def late_driver_stream(res, rng, n):
                     how = r.choice(['attach', 'attach', 'remove'])
                     if how == 'attach' and one_bit:
                         en = r.choice(one_bit)
-                        c.clockDriver = py4hw.ClockDriver(f'late{len(log)}', base=sysobj.clockDriver, enable=en)
+                        near = spec_driver(c.parent)
+                        wmode = r.choice(['none', 'none', 'own', 'enclosing', 'system'])
+                        wire = {'none': None, 'own': sysobj.wire(f'lateck{len(log)}'), 'enclosing': None if near is None else near.wire,
+                                'system': sysobj.clockDriver.wire}[wmode]
+                        set_driver(c, py4hw.ClockDriver(f'late{len(log)}', base=sysobj.clockDriver, enable=en, wire=wire))
                         c.clockDriver._verif_enable = en
-                        log.append(('set-driver', c.name, 'gated by ' + en.name))
+                        log.append(('set-driver', c.name, 'gated by ' + en.name, 'clock wire: ' + wmode))
                     else:
-                        c.clockDriver = None
+                        set_driver(c, None)
                         log.append(('remove-driver', c.name))
                     sim = sysobj.getSimulator()
                     log.append(('getSimulator',))
@@ -221,10 +403,16 @@ def root_gated_stream(res, rng, n):
         log = []
         summary = dict(design="HWSystem(clock_driver=ClockDriver('gclk', enable=<bench wire>" + (', wire=…' if with_wire else '') + ')) with a register chain',
                        width=w, registers=len(qs), history=log)
+        hw._verif_driver = drv          # what the design asked for, whatever HWSystem.__init__ stored
+        from py4hw.base import getObjectClockDriver
         for lf in seq:
-            if spec_driver(lf) is not drv:
+            try:
+                got_ = getObjectClockDriver(lf)
+            except Exception as e_:
+                got_ = e_
+            if got_ is not drv:
                 res.fail('a block of a system whose own clock driver is gated does not inherit that driver',
-                         dict(summary, leaf=lf.getFullPath(), driver=str(getattr(spec_driver(lf), 'name', None))))
+                         dict(summary, leaf=lf.getFullPath(), driver=str(getattr(got_, 'name', got_))))
         before, after = gating_oracle(res, summary)(hw, seq)
         n0 = len(res.failures) + len(res.known_hits)
         for t in range(r.randint(4, 14)):
@@ -242,23 +430,105 @@ def root_gated_stream(res, rng, n):
         res.count(('root-gated', i, w, len(qs), with_wire), nontrivial=True, hist={'root_gated_designs': 1})
 
 
+def shared_wire_stream(res, rng, reps):
+    """EVERY combination of: enclosing domain (the system's free-running driver | a gated driver without clock wire | on its own
+    wire | on the system's clk wire) x inner driver (gated | free running) x inner clock wire (none | own | THE SAME Wire object as
+    the enclosing domain's driver | the same as a sibling domain's driver) x placement of the inner driver (directly on a register |
+    on the register's container | two levels above the register).  Enables are bench wires; every edge is bracketed by the hold /
+    ungated-step oracle; the simulator's domains are compared with the Lean `domains` of the declared hierarchy."""
+    import py4hw, contextlib, io, itertools
+    reqs, exp = [], []
+    for rep_ in range(reps):
+        for outer_kind, inner_gated, inner_wire, place in itertools.product(
+                ('system', 'gated-nowire', 'gated-ownwire', 'gated-syswire'), (True, False),
+                ('none', 'own', 'enclosing', 'sibling'), ('register', 'container', 'two-levels')):
+            r = rng.fork((rep_, outer_kind, inner_gated, inner_wire, place))
+            hw = py4hw.HWSystem()
+            w = r.randint(2, 8)
+            en_o, en_i, en_s = hw.wire('en_outer', r.choice([1, 1, 2])), hw.wire('en_inner', r.choice([1, 1, 2])), hw.wire('en_sib')
+            dw = hw.wire('d', w)
+            outer = py4hw.Logic(hw, 'outer')
+            if outer_kind != 'system':
+                ow = {'gated-nowire': None, 'gated-ownwire': hw.wire('outer_ck'), 'gated-syswire': hw.clockDriver.wire}[outer_kind]
+                set_driver(outer, py4hw.ClockDriver('gclk', base=hw.clockDriver, enable=en_o, wire=ow))
+                outer.clockDriver._verif_enable = en_o
+            sib = py4hw.Logic(outer, 'sib')
+            set_driver(sib, py4hw.ClockDriver('gclk', base=spec_driver(outer), enable=en_s, wire=hw.wire('sib_ck')))
+            sib.clockDriver._verif_enable = en_s
+            iw = {'none': None, 'own': hw.wire('inner_ck'), 'enclosing': spec_driver(outer).wire, 'sibling': sib.clockDriver.wire}[inner_wire]
+            inner_drv = py4hw.ClockDriver(r.choice(['gclk', 'clk', 'inner']), base=spec_driver(outer),
+                                          enable=(en_i if inner_gated else None), wire=iw)
+            inner_drv._verif_enable = inner_drv.enable
+            qs = [hw.wire(f'q{k}', w) for k in range(6)]
+            py4hw.Reg(hw, 'r_sys', dw, qs[0])
+            py4hw.Reg(outer, 'r_outer', qs[0], qs[1])
+            py4hw.Reg(sib, 'r_sib', qs[1], qs[2])
+            if place == 'register':
+                set_driver(py4hw.Reg(outer, 'r_in0', dw, qs[3]), inner_drv)
+                py4hw.Reg(outer, 'r_outer2', qs[3], qs[4])
+            else:
+                inner = py4hw.Logic(outer, 'inner')
+                set_driver(inner, inner_drv)
+                host = inner if place == 'container' else py4hw.Logic(py4hw.Logic(inner, 'mid'), 'deep')
+                py4hw.Reg(host, 'r_in0', dw, qs[3])
+                py4hw.Reg(host, 'r_in1', qs[3], qs[4])
+            with contextlib.redirect_stdout(io.StringIO()):
+                sim = hw.getSimulator()
+            seq = [lf for lf in hw.allLeaves() if lf.isClockable()]
+            log = []
+            summary = dict(enclosing_domain=outer_kind, inner_driver='gated' if inner_gated else 'free running',
+                           inner_clock_wire=inner_wire, inner_driver_placed_on=place, width=w,
+                           history_en_outer_en_inner_en_sib_d=log)
+            rq, ex = domains_request(hw, sim)
+            reqs.append(rq)
+            exp.append(ex)
+            before, after = gating_oracle(res, summary)(hw, seq)
+            n0 = len(res.failures) + len(res.known_hits)
+            for t in range(r.randint(6, 12)):
+                vals = (r.choice([0, 0, 1, (1 << en_o.getWidth()) - 1]), r.choice([0, 0, 1, (1 << en_i.getWidth()) - 1]), r.choice([0, 1]), r.bits(w))
+                for wr, v in zip((en_o, en_i, en_s, dw), vals):
+                    wr.put(v)
+                log.append(vals)
+                sim.propagateAll()
+                before()
+                sim.clk(1)
+                after()
+                if len(res.failures) + len(res.known_hits) > n0:
+                    break
+            res.count(('shared-wire', rep_, outer_kind, inner_gated, inner_wire, place), nontrivial=True,
+                      hist={'shared_wire_configs': f'{outer_kind}/{"gated" if inner_gated else "free"}/{inner_wire}/{place}'})
+    try:
+        outs = run_driver('Drv/C10.lean', reqs)
+        for rq, a, e in zip(reqs, outs, exp):
+            if a.strip() != e:
+                res.disagree('domains-shared-wire', dict(request=rq, lean=a, python=e))
+    except ToolFailure as e:
+        res.broken.append(('correspondence', 'domains-shared-wire', str(e)[:300]))
+
+
 def main(res, tier, rng, replay):
     import py4hw
     ok, metas, errors, changed = regenerate()
     for e in errors:
         res.broken.append(('translator', 'py2lean', e))
-    res.proof_stage('Py4hwV.Props.C10', OBLIGATIONS)
+    res.proof_stage('Py4hwV.Props.C10Dom', OBLIGATIONS)
+    try:
+        exhaustive_paths(res, 4 if tier == 'quick' else 5)
+    except ToolFailure as e:
+        res.broken.append(('correspondence', 'hierarchy-exhaustive', str(e)[:300]))
     try:
         hierarchy_stream(res, rng.fork('hier'), 150 if tier == 'quick' else 3000)
     except ToolFailure as e:
         res.broken.append(('correspondence', 'hierarchy', str(e)[:300]))
+    shared_wire_stream(res, rng.fork('shared-wire'), 1 if tier == 'quick' else 12)
+    dom_reqs, dom_exp = [], []
     n_designs = 150 if tier == 'quick' else 3000
     nb = D.NetBatch(res, 'net-sim-domains')
     for i in range(n_designs):
         r = rng.fork(('d', i))
         plan = G.random_plan(r, r.randint(3, 22), seq_ratio=(2, 3), wmax=r.choice([1, 2, 4, 8]), n_domains=r.randint(1, 4),
                              kinds=['And2', 'Or2', 'Not', 'Buf', 'Mux2', 'Constant', 'Bit', 'Reg', 'Sequence', 'SynchronousMemory',
-                                    'AutoReset', 'AddCarryIn'])
+                                    'AutoReset', 'AddCarryIn'], driver_wires=True)
         order = r.shuffle(range(len(plan['nodes'])))
         try:
             sysobj, ins, W, leaves = G.build(plan, inst_order=order)
@@ -292,6 +562,12 @@ def main(res, tier, rng, replay):
         except Exception as e:
             res.hist('build_errors', str(e)[:50])
             continue
+        try:
+            rq_, ex_ = domains_request(sysobj, sim)
+            dom_reqs.append(rq_)
+            dom_exp.append(ex_)
+        except Exception as e:
+            res.hist('simulation_errors', f'domains-request:{type(e).__name__}:{str(e)[:40]}')
         ops = []
         raw_ops = G.random_ops(r, ins, r.randint(6, 24))
         for o in raw_ops:
@@ -338,7 +614,10 @@ def main(res, tier, rng, replay):
         except Exception as e_:
             res.hist('simulation_errors', f'unsplit:{type(e_).__name__}:{str(e_)[:40]}')
         gated = sum(1 for dm in plan['domains'][1:] if dm['gated'])
-        res.count(('design', i, str(summary)), nontrivial=gated >= 1 and len(seq) >= 2, hist={'gated_domains': gated})
+        res.count(('design', i, str(summary)), nontrivial=gated >= 1 and len(seq) >= 2,
+                  hist={'gated_domains': gated, 'free_running_sub_drivers': sum(1 for dm in plan['domains'][1:] if dm.get('free_driver')),
+                        'domain_clock_wire': '+'.join(sorted(set(dm.get('wire_mode', '-') for dm in plan['domains'][1:]
+                                                                 if dm['gated'] or dm.get('free_driver')))) or '-'})
         if i < 2:
             res.sample(summary)
         if len(nb.jobs) >= 150:
@@ -351,14 +630,28 @@ def main(res, tier, rng, replay):
         nb.run()
     except ToolFailure as e:
         res.broken.append(('correspondence', 'net-sim-domains', str(e)[:300]))
+    try:
+        outs_ = run_driver('Drv/C10.lean', dom_reqs)
+        for rq_, a_, e_ in zip(dom_reqs, outs_, dom_exp):
+            if a_.strip() != e_:
+                res.disagree('domains', dict(request=rq_, lean=a_, python=e_))
+    except ToolFailure as e:
+        res.broken.append(('correspondence', 'domains', str(e)[:300]))
     late_driver_stream(res, rng.fork('late-driver'), 40 if tier == 'quick' else 800)
     root_gated_stream(res, rng.fork('root-gated'), 40 if tier == 'quick' else 800)
-    res.cov['rule'] = ('hierarchy stream: random container trees with drivers at random levels (incl. none at the root), real '
-                       'getObjectClockDriver and Simulator.clockDrivers grouping vs the Lean model and vs the nearest-ancestor rule; '
+    res.cov['rule'] = ('exhaustive: every root-to-block path of depth <= 4 (5 thorough) with each object carrying no driver / a driver without '
+                       'clock wire / on the shared clock wire / on its own wire, root with its default driver or none; shared-wire stream: every '
+                       'combination enclosing domain x inner driver gating x inner clock wire (none/own/same Wire object as the enclosing / a '
+                       'sibling driver) x placement, under the hold / ungated-step oracle; '
+                       'hierarchy stream: random container trees with drivers at random levels (incl. none at the root; clock wires none / own / '
+                       'shared with an ancestor or any other driver; colliding names; base chains), real '
+                       'getObjectClockDriver and Simulator.clockDrivers grouping vs the Lean model (tree recursion, chain of full driver '
+                       'records, domains dict) and vs the nearest-ancestor rule evaluated on the drivers the design ASKED for; '
                        'designs: seeded multi-domain netlists (gated drivers whose enables are arbitrary design wires incl. registers inside '
                        'the domain), every clk(1) bracketed by the hold / ungated-step oracle on the implementation, all wires compared with '
                        'the Lean model; non-trivial = at least one gated domain and two sequential leaves')
-    res.assumptions += ['each clockable leaf is registered under exactly one driver (lookup_group) so the Nodup hypothesis of the theorems holds',
+    res.assumptions += ['allLeaves() lists every leaf once (checked per design) and one ClockDriver object has one set of attributes (Coherent): '
+                        'from these the Nodup hypothesis of the gating theorems is DERIVED (domains_enabled_nodup)',
                         'Verilog-side gating (GatedClock body) belongs to C01']
 
 
